@@ -34,6 +34,7 @@ type BusRoles struct {
 
 	ShardFn    *ssa.Function // (*EventBus).getShard
 	DispatchFn *ssa.Function // callHandlerWithContext (generic body)
+	LoopFn     *ssa.Function // the function holding the dispatch loop (PublishContext or a helper it calls)
 	PersistFn  *ssa.Function // (*EventBus).persistEvent
 	PublishFn  *ssa.Function // PublishContext (generic body)
 	NameFn     *ssa.Function // EventType
@@ -415,29 +416,68 @@ func DiscoverBus(p *Prog) *BusRoles {
 			reach[f] = res
 			return res
 		}
-		var scan func(g *ssa.Function)
-		scan = func(g *ssa.Function) {
-			for _, b := range g.Blocks {
-				for _, in := range b.Instrs {
-					if ci, ok := in.(ssa.CallInstruction); ok {
-						if sc := ci.Common().StaticCallee(); sc != nil {
-							if o := sc.Origin(); o != nil {
-								sc = o
-							}
-							if PkgOf(sc) == PkgBus && sc.Parent() == nil && reaches(sc, 0) {
-								r.DispatchFn = sc
-							}
+		// The dispatch function is the one called from inside the dispatch loop; the loop
+		// sits in PublishContext or in a helper PublishContext hands the snapshot to.
+		// find(g): look at g's calls that lead to the invoker; a call made inside a loop of g
+		// (directly, or in a closure/goroutine created inside the loop) is the dispatch call
+		// and g holds the loop; otherwise descend into the callee.
+		var find func(g *ssa.Function, d int) bool
+		find = func(g *ssa.Function, d int) bool {
+			if d > 4 {
+				return false
+			}
+			li := loopsOf(g)
+			var descend []*ssa.Function
+			found := false
+			var look func(h *ssa.Function, inLoopByParent bool)
+			look = func(h *ssa.Function, inLoopByParent bool) {
+				for _, b := range h.Blocks {
+					for _, in := range b.Instrs {
+						inLoop := inLoopByParent || (h == g && li.headerOf[b] != nil)
+						if mc, ok := in.(*ssa.MakeClosure); ok {
+							look(mc.Fn.(*ssa.Function), inLoop)
+							continue
+						}
+						ci, ok := in.(ssa.CallInstruction)
+						if !ok {
+							continue
+						}
+						sc := ci.Common().StaticCallee()
+						if sc == nil {
+							continue
+						}
+						if o := sc.Origin(); o != nil {
+							sc = o
+						}
+						if PkgOf(sc) != PkgBus || sc.Parent() != nil || !reaches(sc, 0) {
+							continue
+						}
+						if inLoop {
+							r.DispatchFn, r.LoopFn = sc, g
+							found = true
+						} else {
+							descend = append(descend, sc)
 						}
 					}
 				}
 			}
-			for _, a := range g.AnonFuncs {
-				scan(a)
+			look(g, false)
+			if found {
+				return true
 			}
+			for _, sc := range descend {
+				if find(sc, d+1) {
+					return true
+				}
+			}
+			return false
 		}
-		scan(r.PublishFn)
+		find(r.PublishFn, 0)
 		if r.DispatchFn == nil {
 			r.DispatchFn = invoker
+		}
+		if r.LoopFn == nil {
+			r.LoopFn = r.PublishFn
 		}
 	}
 	// persist function, by role: the function PublishContext calls whose static call tree
